@@ -75,6 +75,42 @@ theorem oto_setitem_spec (s : OTO α) (w : s.WF) (k v a b : α) :
   rw [mem_iff_lookup _ (w.setitem k v).nf, mem_iff_lookup _ w.nf, OTO.setitem_fwd w]
   grind
 
+/-! mutations made through `.inv` are the transposed mutations made through the object (round 3) -/
+
+/-- `x.inv[v] = k` holds the same pairs afterwards as `x[k] = v` -/
+theorem oto_setitem_through_inv (s : OTO α) (w : s.WF) (k v a b : α) :
+    (a, b) ∈ (s.stepSide true (.setitem v k)).1.fwd ↔ (a, b) ∈ (s.setitem k v).fwd := by
+  have wf := w.flip
+  have w2 := wf.setitem v k
+  show (a, b) ∈ (s.flip.setitem v k).inv ↔ _
+  rw [mem_iff_lookup _ w2.ni, ← w2.inverse b a, ← mem_iff_lookup _ w2.nf, oto_setitem_spec s.flip wf v k b a,
+    oto_setitem_spec s w k v a b]
+  show (b = v ∧ a = k) ∨ ((b, a) ∈ s.inv ∧ b ≠ v ∧ a ≠ k) ↔ _
+  rw [mem_iff_lookup _ w.ni, ← w.inverse a b, ← mem_iff_lookup _ w.nf]
+  constructor
+  · rintro (⟨h1, h2⟩ | ⟨h1, h2, h3⟩)
+    · exact Or.inl ⟨h2, h1⟩
+    · exact Or.inr ⟨h1, h3, h2⟩
+  · rintro (⟨h1, h2⟩ | ⟨h1, h2, h3⟩)
+    · exact Or.inl ⟨h2, h1⟩
+    · exact Or.inr ⟨h1, h3, h2⟩
+/-- `del x.inv[v]` is `del x[k]` for the key `k` that holds `v` (literally the same two dicts); KeyError when no key does -/
+theorem oto_delitem_through_inv (s : OTO α) (w : s.WF) (v : α) :
+    (∀ k, lookup v s.inv = some k → (s.stepSide true (.delitem v)).1 = (s.delitem k).1 ∧
+      (s.stepSide true (.delitem v)).2 = .none) ∧
+    (lookup v s.inv = none → s.stepSide true (.delitem v) = (s, .err .KeyError)) := by
+  constructor
+  · intro k hk
+    have hf : lookup k s.fwd = some v := (w.inverse k v).2 hk
+    simp [OTO.stepSide, OTO.step, OTO.delitem, OTO.flip, hk, hf]
+  · intro hn
+    simp [OTO.stepSide, OTO.step, OTO.delitem, OTO.flip, hn]
+/-- non-vacuity for the two theorems above: a state with both branches (value 4 held by key 3, value 9 by nobody) -/
+example : (OTO.ofPairs [(1, 2), (3, 4)] : OTO Nat).WF ∧
+    lookup 4 (OTO.ofPairs [(1, 2), (3, 4)] : OTO Nat).inv = some 3 ∧ lookup 9 (OTO.ofPairs [(1, 2), (3, 4)] : OTO Nat).inv = none ∧
+    ((OTO.ofPairs [(1, 2), (3, 4)] : OTO Nat).stepSide true (.setitem 2 3)).1 = ⟨[(3, 2)], [(2, 3)]⟩ :=
+  ⟨OTO.WF.ofPairs _, by decide, by decide, by decide⟩
+
 /-- a mutator leaves every other instance exactly as it was; constructors / copy only append -/
 theorem oto_isolation (regs regs' : List (OTO α)) (c : OtoCmd α) (ret : Ret α)
     (hc : otoCmd regs c = some (regs', ret)) (j : Nat) (hj : j < regs.length)
@@ -302,6 +338,21 @@ theorem m2m_isolation (regs regs' : List (M2M α)) (c : M2MCmd α) (ret : Ret α
     (ht2 : ∀ r side r2 side2, c = .updateFrom r side r2 side2 → j ≠ r) :
     regs'[j]? = regs[j]? :=
   m2mCmd_isolated hc j hj ht ht2
+
+/-- `x.inv.add(v, k)` is `x.add(k, v)`, `x.inv.remove(v, k)` is `x.remove(k, v)` - same dicts, same KeyError -/
+theorem m2m_add_remove_through_inv (s : M2M α) (w : s.WF) (k v : α) :
+    s.stepSide true (.add v k) = s.stepSide false (.add k v) ∧
+    s.stepSide true (.remove v k) = s.stepSide false (.remove k v) := by
+  constructor
+  · rfl
+  · have t := w.transpose k v
+    by_cases h : v ∈ getSet k s.data
+    · have h' := t.1 h
+      simp [M2M.stepSide, M2M.step, M2M.remove, M2M.flip, M2M.removeRaw, h, h']
+    · have h' : ¬ k ∈ getSet v s.inv := fun x => h (t.2 x)
+      simp [M2M.stepSide, M2M.step, M2M.remove, M2M.flip, h, h']
+example : (M2M.empty.updatePairs [(1, 5), (2, 5)] : M2M Nat).stepSide true (.remove 5 1) = (⟨[(2, [5])], [(5, [2])]⟩, .none) ∧
+    ((M2M.empty.updatePairs [(1, 5), (2, 5)] : M2M Nat).stepSide true (.remove 5 7)).2 = .err .KeyError := by decide
 
 /-! what each mutator does to the relation (forward side; the inverse side follows by the invariant) -/
 
